@@ -126,10 +126,16 @@ namespace pika::threads::detail {
 
         if (ran_exit_funcs_ || get_state().state() == thread_schedule_state::terminated)
         {
+#if defined(PIKA_VERIF)
+            PIKA_VERIF_POINT(1316, this, 0);    // non-blocking (lock held): callback refused
+#endif
             return false;
         }
 
         exit_funcs_.push_front(f);
+#if defined(PIKA_VERIF)
+        PIKA_VERIF_POINT(1316, this, 1);    // non-blocking (lock held): callback registered
+#endif
 
         return true;
     }
